@@ -36,6 +36,37 @@ static int op_itch(int argc, tok_t *a, out_t *o) {
   out_long(o, mpn_binvert_itch(n)); return 0;
 }
 
+/* bi_dc_bdiv_q [n] [d]: mpn_dc_bdiv_q (qp, np, nn, dp, dn, dinv): dn >= 6 (its ASSERT), nn >= dn, d odd; N is destroyed: a copy */
+static int op_dc_bdiv_q(int argc, tok_t *a, out_t *o) {
+  NEED(argc == 2 && a[0].kind == T_VEC && a[1].kind == T_VEC);
+  long nn = a[0].n, dn = a[1].n; NEED(dn >= 6 && nn >= dn && nn < (1L << 16) && (a[1].d[0] & 1));
+  mp_limb_t dinv; modlimb_invert(dinv, a[1].d[0]);
+  mp_limb_t *qp = dst_new(nn), *np = dst_new(nn), *dp = dst_new(dn);
+  memcpy(np, a[0].d, nn * 8); memcpy(dp, a[1].d, dn * 8);
+  mpn_dc_bdiv_q(qp, np, nn, dp, dn, dinv);
+  out_vec(o, qp, nn);
+  if (memcmp(dp, a[1].d, dn * 8)) out_err(o, "inputmod");
+  if (!dst_ok(qp, nn) || !dst_ok(np, nn) || !dst_ok(dp, dn)) out_err(o, "oob");
+  dst_free(dp); dst_free(np); dst_free(qp); return 0;
+}
+
+/* bi_dc_bdiv_qr_n thr [n] [d]: mpn_dc_bdiv_qr_n (qp, np, dp, k, dinv, tp), N of 2k limbs, D of k >= 2 limbs, odd;
+   thr must be DC_BDIV_QR_THRESHOLD; prints qp[0..k), np[k..2k), return value */
+static int op_dc_bdiv_qr_n(int argc, tok_t *a, out_t *o) {
+  NEED(argc == 3 && a[0].kind == T_NUM && a[1].kind == T_VEC && a[2].kind == T_VEC);
+  NEED(tok_long(&a[0]) == DC_BDIV_QR_THRESHOLD);
+  long k = a[2].n; NEED(k >= 2 && k < (1L << 15) && a[1].n == 2 * k && (a[2].d[0] & 1));
+  mp_limb_t dinv; modlimb_invert(dinv, a[2].d[0]);
+  mp_limb_t *qp = dst_new(k), *np = dst_new(2 * k), *dp = dst_new(k), *tp = dst_new(k);
+  memcpy(np, a[1].d, 2 * k * 8); memcpy(dp, a[2].d, k * 8);
+  mp_limb_t rh = mpn_dc_bdiv_qr_n(qp, np, dp, k, dinv, tp);
+  out_vec(o, qp, k); out_vec(o, np + k, k); out_ulong(o, rh);
+  if (memcmp(dp, a[2].d, k * 8)) out_err(o, "inputmod");
+  if (!dst_ok(qp, k) || !dst_ok(np, 2 * k) || !dst_ok(dp, k) || !dst_ok(tp, k)) out_err(o, "oob");
+  dst_free(tp); dst_free(dp); dst_free(np); dst_free(qp); return 0;
+}
+
 const opdef_t ops_binvert[] = {
-  {"bi_binvert", op_binvert}, {"bi_binvert_p", op_binvert_p}, {"bi_itch", op_itch}, {0, 0}
+  {"bi_binvert", op_binvert}, {"bi_binvert_p", op_binvert_p}, {"bi_itch", op_itch},
+  {"bi_dc_bdiv_q", op_dc_bdiv_q}, {"bi_dc_bdiv_qr_n", op_dc_bdiv_qr_n}, {0, 0}
 };
